@@ -186,7 +186,9 @@ def outcome(fn):
 class CHECK(Check):
     pid = "C20"
     technique = ("Lean 4 decision-logic theorems (accepts <-> wellFormed per entry point, table and parameter conditions "
-                 "generated from the source) + malformed-input stream against every entry point in every container type")
+                 "generated from the source; the bodies of _validate_and_reformat_input and of MetricFrame.__init__ / "
+                 "_process_features lifted as ORDERED CHECK LISTS (validate_src.py, frame_checks.py) with bridge theorems to the "
+                 "hand-written acceptance functions) + malformed-input stream against every entry point in every container type")
     level_text = ("Theorems: for every descriptor, an entry point accepts iff the descriptor is well formed; each listed defect "
                   "(length mismatch in any argument position, label outside {0,1}, missing sensitive feature, degenerate group, "
                   "unsupported combination, control features for ThresholdOptimizer, both bounds / ratio outside (0,1] / negative difference_bound or ratio_bound_slack, bad costs, "
